@@ -150,3 +150,105 @@ func runC17Concat(c *eng.Ctx) {
 		return ok && nodeText(is.Cond) == "sub[i].Op == syntax.OpLiteral && (sub[i].Flags&syntax.FoldCase) == 0" && nodeText(is.Body) == "{ contains = append(contains, string(sub[i].Rune)) }"
 	}, 1)
 }
+
+// C17.R6 / R7: how the large case-insensitive alternation matcher canonicalises strings.  (?i) in the reference engine
+// is simple case folding: two strings are equal iff they are rune-wise in the same folding orbit.
+func runC17Fold(c *eng.Ctx) {
+	p := c.P
+	L := "model/labels:"
+	// ---- R6 the canonical form is a case folding, nothing more, nothing less ----
+	for _, fn := range []string{"toNormalisedLower", "toNormalisedLowerSlow"} {
+		f := c.Fn(L + fn)
+		var normCalls, mappers []string
+		foldOK := true
+		ast.Inspect(f.Body, func(n ast.Node) bool {
+			call, ok := n.(*ast.CallExpr)
+			if !ok {
+				return true
+			}
+			if callee := f.Callee(call); callee != nil && callee.Pkg() != nil {
+				if strings.HasSuffix(callee.Pkg().Path(), "unicode/norm") {
+					normCalls = append(normCalls, nodeText(call.Fun))
+				}
+				if callee.Pkg().Path() == "strings" && callee.Name() == "Map" && len(call.Args) == 2 {
+					m := nodeText(call.Args[0])
+					mappers = append(mappers, m)
+					// the mapper must be a function of this package that walks the folding orbit
+					ok := false
+					if id, isID := call.Args[0].(*ast.Ident); isID {
+						if mf := p.TryFunc(L + id.Name); mf != nil {
+							if src := p.SrcOf(mf); src != nil {
+								ast.Inspect(src.Decl.Body, func(y ast.Node) bool {
+									if sc, isC := y.(*ast.CallExpr); isC && nodeText(sc.Fun) == "unicode.SimpleFold" {
+										ok = true
+									}
+									return true
+								})
+							}
+						}
+					}
+					foldOK = foldOK && ok
+				}
+			}
+			return true
+		})
+		c.Check("R6", f.Where(), "the case-insensitive canonical form applies no Unicode normalisation (the reference engine compares code points up to case folding only)", len(normCalls) == 0, p.Pos(f.Body.Pos()),
+			"calls "+strings.Join(normCalls, ", ")+": compatibility decomposition equates strings the regexp keeps apart (the ligature U+FB01 and `fi`, `é` and `e`+U+0301)")
+		c.Check("R6", f.Where(), "non-ASCII runes are mapped rune by rune to a representative of their simple-folding orbit (a mapper built on unicode.SimpleFold)", len(mappers) >= 1 && foldOK, p.Pos(f.Body.Pos()),
+			"mapper(s) "+strings.Join(mappers, ", ")+": unicode.ToLower leaves orbits with two lower-case members split (σ/ς) and does not merge K with U+212A")
+	}
+	// ---- R7 prefix keys: writer and reader of equalMultiStringMapMatcher.prefixes agree, and fold before cutting ----
+	canon := func(fnRef string) (fns []string, cutFirst bool, pos string) {
+		f := c.Fn(fnRef)
+		pos = p.Pos(f.Body.Pos())
+		ast.Inspect(f.Body, func(n ast.Node) bool {
+			call, ok := n.(*ast.CallExpr)
+			if !ok || len(call.Args) == 0 {
+				return true
+			}
+			name := nodeText(call.Fun)
+			if name != "strings.ToLower" && name != "toNormalisedLower" {
+				return true
+			}
+			under := false
+			for _, cd := range f.CondsOf(call) {
+				under = under || cd == "!m.caseSensitive=T"
+			}
+			if !under {
+				return true
+			}
+			// only the key of the prefixes map: the argument involves minPrefixLen, or its result is cut by it
+			arg := nodeText(call.Args[0])
+			if !strings.Contains(arg, "minPrefixLen") && !strings.Contains(arg, "prefix") && arg != "s" {
+				return true
+			}
+			if strings.Contains(fnRef, "Matches") && !strings.Contains(arg, "minPrefixLen") {
+				return true // the whole-value key of m.values
+			}
+			fns = append(fns, name)
+			if _, isSlice := ast.Unparen(call.Args[0]).(*ast.SliceExpr); isSlice {
+				cutFirst = true
+			}
+			if id, isID := call.Args[0].(*ast.Ident); isID {
+				// s = prefix[:m.minPrefixLen] before the call
+				ast.Inspect(f.Body, func(y ast.Node) bool {
+					as, ok := y.(*ast.AssignStmt)
+					if ok && len(as.Lhs) == 1 && nodeText(as.Lhs[0]) == id.Name && as.Pos() < call.Pos() {
+						if _, isSlice := ast.Unparen(as.Rhs[0]).(*ast.SliceExpr); isSlice {
+							cutFirst = true
+						}
+					}
+					return true
+				})
+			}
+			return true
+		})
+		return
+	}
+	wf, wcut, wpos := canon(L + "equalMultiStringMapMatcher.addPrefix")
+	rf, rcut, _ := canon(L + "equalMultiStringMapMatcher.Matches")
+	c.Check("R7", L+"equalMultiStringMapMatcher.addPrefix", "the key stored in the prefix map and the key looked up by Matches are canonicalised by the same function", len(wf) == 1 && len(rf) == 1 && wf[0] == rf[0], wpos,
+		"addPrefix uses "+strings.Join(wf, ",")+", Matches uses "+strings.Join(rf, ",")+": a prefix such as `ſ` is stored unfolded and never found")
+	c.Check("R7", L+"equalMultiStringMapMatcher.Matches", "the value is canonicalised as a whole before it is cut to the prefix length (a byte length taken from another pattern's prefix)", !wcut && !rcut, wpos,
+		"s[:m.minPrefixLen] / prefix[:m.minPrefixLen] cut bytes first: a multi-byte rune that folds to a shorter one (U+212A → k, U+017F → s) is split and the key cannot match")
+}
